@@ -176,8 +176,9 @@ Definition wh_core (m n : nat) (KJ muJ : @M QcF) (jxx : Qc) (L mq Sq : @M QcF)
    jxx (added to K_xx), jkl (added to K_zz in the prior of the KL), kind p1 P2, L, xv, idx.
    Output: 0 on failure, else
    1 :: q(u) mean (m) ++ q(u) cov (m*m) ++ q(f) mean (n) ++ q(f) cov (n*n) ++ KL expr
-     ++ [whitened only: root residual; q(f) mean, cov via the unwhitened closed form with
-         u = mz + L e] *)
+     ++ [whitened only: root residual];
+   4 = the whitened parameters through the unwhitened closed form (cross-check of the
+   theorem on a few small cases) *)
 Definition run_c14 (c : nat * (nat * nat * nat) * list (list Qc) * list Qc * (Qc * Qc * Qc)
                         * nat * list Qc * list (list Qc) * list (list Qc)
                         * list Qc * list nat) : list Z :=
@@ -203,17 +204,27 @@ Definition run_c14 (c : nat * (nat * nat * nat) * list (list Qc) * list Qc * (Qc
       end
     | 1%nat =>
       let L := of_list l in
-      match wh_core m n KJ muJ jxx L mq Sq, inv_checked m Kzz with
-      | Some (pm, pc), Some Kinv =>
-          let Kxx0 := mat n n (sub m m KJ) in
+      match wh_core m n KJ muJ jxx L mq Sq with
+      | Some (pm, pc) =>
           1%Z :: ser_mat m 1 mq ++ ser_mat m m Sq
               ++ ser_mat n 1 pm ++ ser_mat n n pc
               ++ ser_expr (kl_wh_expr m has_cov Sq mq)
               ++ ser_qc (max_abs_diff m m (mmul m L (mT L)) Kzz)
-              ++ ser_mat n 1 (unwh_mean_staged m Kzx Kinv mx mz (unwhiten_mean m L mz mq))
+      | None => [0%Z]
+      end
+    | 4%nat =>
+      (* whitened parameters pushed through the UNWHITENED closed form with u = mz + L e
+         (what theorem whitened_eq_unwhitened says must coincide with strat 1) *)
+      let L := of_list l in
+      match inv_checked m Kzz with
+      | Some Kinv =>
+          let Kxx0 := mat n n (sub m m KJ) in
+          1%Z :: ser_mat m 1 mq ++ ser_mat m m Sq
+              ++ ser_mat n 1 (unwh_mean_staged m Kzx Kinv mx mz (mat m 1 (unwhiten_mean m L mz mq)))
               ++ ser_mat n n (add_jitter jxx
                    (unwh_cov_staged m n Kzz Kzx Kxx0 Kinv (mat m m (unwhiten_cov_staged m L Sq))))
-      | _, _ => [0%Z]
+              ++ ser_expr (kl_wh_expr m has_cov Sq mq)
+      | None => [0%Z]
       end
     | 2%nat =>
       let Kp := mat m m (add_jitter jkl (sub 0 0 KJ)) in
